@@ -6,17 +6,12 @@ import MiniVecProof.Model.World
 open MV
 
 def splitOnChar (c : Char) (s : List Char) : List (List Char) :=
-  let rec go (acc cur : List (List Char) × List Char) (rest : List Char) : List (List Char) :=
+  -- linear: pieces and the current piece are accumulated in reverse
+  let rec go (done : List (List Char)) (cur : List Char) (rest : List Char) : List (List Char) :=
     match rest with
-    | [] => (acc.1 ++ [cur.2])
-    | x :: xs => if x == c then go (acc.1 ++ [cur.2], []) (acc.1 ++ [cur.2], []) xs else go acc (cur.1, cur.2 ++ [x]) xs
-  -- simple accumulator version
-  let rec go2 (done : List (List Char)) (cur : List Char) (rest : List Char) : List (List Char) :=
-    match rest with
-    | [] => done ++ [cur]
-    | x :: xs => if x == c then go2 (done ++ [cur]) [] xs else go2 done (cur ++ [x]) xs
-  let _ := go
-  go2 [] [] s
+    | [] => (cur.reverse :: done).reverse
+    | x :: xs => if x == c then go (cur.reverse :: done) [] xs else go done (x :: cur) xs
+  go [] [] s
 
 def words (s : String) : List String :=
   ((splitOnChar ' ' s.toList).filter (· ≠ [])).map String.ofList
